@@ -244,6 +244,22 @@ def run(tier, seed):
                            ('Struct("h"/Byte, "x"/Bitwise(FixedSized(8, Struct("u"/Nibble, "v"/Octet))))', b'\x01\x02\x03', ['x', 'v'])]:
         acc.check('parse_path', wsrc, data=d, names=names)
         cases.append(dict(src=wsrc, op='parse', data=d))
+    for vsrc, d, names in [('Struct("blob"/Prefixed(VarInt, GreedyBytes))', b'\xac', ['blob']), ('Struct("blob"/Prefixed(VarInt, GreedyBytes))', b'\xac\x82', ['blob']),
+                           ('Struct("h"/Struct("v"/VarInt), "t"/Byte)', b'\x80\x80', ['h', 'v']), ('Struct("h"/Struct("k"/Byte, "z"/ZigZag))', b'\x01\xff\xff', ['h', 'z']),
+                           ('Struct("a"/Array(2, "e"/VarInt))', b'\x01\x81', ['a', 'e']), ('Struct("s"/PascalString(VarInt, "utf8"))', b'\x85', ['s']),
+                           # one object used as two members (and below a second parent): the path is that of the occurrence that failed
+                           ('Struct("first"/S0, "second"/S0)', b'\x00\x02a', ['second', 'd']), ('Struct("first"/S0, "second"/S0)', b'\x02a', ['first', 'd']),
+                           ('Struct("p"/Struct("m"/S0), "q"/Struct("m"/S0), "r"/S0)', b'\x00\x00\x03ab', ['r', 'd']),
+                           ('Struct("p"/Struct("m"/S0), "q"/Struct("m"/S0), "r"/S0)', b'\x00\x03ab', ['q', 'm', 'd']),
+                           ('Sequence("a"/S0, Array(2, "e"/S0))', b'\x00\x00\x02x', ['e', 'd'])]:
+        acc.check('parse_path', vsrc, data=d, names=names)
+        cases.append(dict(src=vsrc, op='parse', data=d))
+    for bsrc2, obj, names in [('Struct("first"/S0, "second"/S0)', dict(first=dict(n=0, d=b''), second=dict(n=300, d=b'')), ['second', 'n']),
+                              ('Struct("first"/S0, "second"/S0)', dict(first=dict(n=300, d=b''), second=dict(n=0, d=b'')), ['first', 'n']),
+                              ('Struct("p"/Struct("m"/S0), "q"/Struct("m"/S0))', dict(p=dict(m=dict(n=0, d=b'')), q=dict(m=dict(n=1, d=b'toolong'))), ['q', 'm', 'd'])]:
+        acc.check('build_path', bsrc2, obj=obj, names=names)
+        acc.check('build_path', bsrc2, obj=obj, names=names)          # twice: what a first use left behind must not show in the second
+        cases.append(dict(src=bsrc2, op='build', obj=obj))
     # bit-level members of variable size (the streamed path), cut at every byte: the member that runs out of bits is named
     bsrc = 'Struct("bits"/Bitwise(Struct("n"/Nibble, "rsv"/Nibble, "items"/Array(this.n, "it"/BitsInteger(12)))), "t"/Byte)'
     bdata = C.get(bsrc).build(dict(bits=dict(n=2, rsv=0, items=[1, 2]), t=7))
